@@ -112,7 +112,16 @@ def judge(jobs, tier):
             seen[k] = len(uniq)
             uniq.append({"id": len(uniq), "proto": fam, "exp": j["exp"], "out": j["out"], "u": j["u"]})
         alias.setdefault(seen[k], []).append(j["id"])
+    # the verdict is a function of (outputs, expectations, specification): cached on exactly that
+    key = hashlib.sha256((json.dumps(uniq, sort_keys=True) + c.spec_hash("GenJudge", "genjudge")).encode()).hexdigest()[:24]
+    cp = os.path.join(c.OUT, "cache", f"genjudge-{key}.json")
+    if os.path.exists(cp):
+        bad = set()
+        for u in json.load(open(cp)):
+            bad.update(alias[u])
+        return bad, len(uniq)
     bad = set()
+    badu = []
     CH = 4000
     for a in range(0, len(uniq), CH):
         chunk = uniq[a:a + CH]
@@ -128,7 +137,9 @@ def judge(jobs, tier):
             raise c.ToolError("GenJudge wrote no verdict:\n" + res["out"][-3000:])
         for row in c.read_ndjson(op):
             bad.update(alias[row["id"]])
+            badu.append(row["id"])
         os.remove(op)
+    json.dump(badu, open(cp, "w"))
     return bad, len(uniq)
 
 
